@@ -11,9 +11,11 @@ def plan(tier, seed):
     fun = ["util.metadata_from_many", "util.analyse_paths"]
     jobs = [ch("C14", F, h, t, fun, env=dict(VERIF_SLEN=sl)) for h in
             ("h_many_legacy", "h_many_fast", "h_analyse_paths", "h_analyse_paths_root")]
-    for kind in (1, 2, 3):
+    for kind in (1, 2, 3, 4, 5):
         j = ch("C14", F, "h_many_schema_mismatch", t, fun, shape=dict(difference=["renamed column", "one more column",
-                                                                                  "one column fewer"][kind - 1]),
+                                                                                  "one column fewer",
+                                                                                  "annotation missing",
+                                                                                  "annotation added"][kind - 1]),
                env=dict(VERIF_SLEN=sl, VERIF_KIND=kind))
         j["name"] += "[kind=%d]" % kind
         jobs.append(j)
